@@ -61,6 +61,10 @@ static void st_trace_hook(int phase, int dtype, int jcol, double u, int usepr, i
  * "hang".  A run inside a caller workspace is abandoned with siglongjmp (its growth loops do not call the
  * allocation ledger, so no lock is held); a run under library allocation may be inside the ledger when the
  * signal arrives, so there the process reports and exits and `check` resumes with the next case. */
+/* hangs seen in the current case: after ST_MAXHANG of them the remaining runs of the case are skipped (hang = 2)
+ * so that a tree in which many runs hang still finishes in bounded time */
+#define ST_MAXHANG 3
+static int g_case_hangs;
 static sigjmp_buf g_wd_jmp; static volatile sig_atomic_t g_wd_armed; static int g_wd_exit, g_wd_exit_run; static char g_wd_what[160];
 static void st_on_alarm(int sig) {
     (void)sig;
